@@ -29,6 +29,8 @@ from strawberryfields.program import Program
 from strawberryfields.tdm import TDMProgram, is_ptype
 from strawberryfields import ops
 
+from .blackbird_io import _op_parameters
+
 
 def get_expanded_statements(prog: xir.Program) -> Sequence[xir.Statement]:
     """Get a list of statements with all gate definitions expanded.
@@ -277,14 +279,14 @@ def to_xir(prog: Program, **kwargs) -> xir.Program:
         else:
             if add_decl:
                 if name not in [gdecl.name for gdecl in xir_prog.declarations["gate"]]:
-                    params = [f"p{i}" for i, _ in enumerate(cmd.op.p)]
+                    params = [f"p{i}" for i, _ in enumerate(_op_parameters(cmd.op))]
                     gate_decl = xir.Declaration(
                         name, type_="gate", params=params, wires=tuple(range(len(wires)))
                     )
                     xir_prog.add_declaration(gate_decl)
 
             params = []
-            for i, a in enumerate(cmd.op.p):
+            for i, a in enumerate(_op_parameters(cmd.op)):
                 if sfpar.par_is_symbolic(a):
                     # try to evaluate symbolic parameter
                     try:
